@@ -102,10 +102,10 @@ def run(ctx):
         if rng is not None and const_value(rng.kids[0]) == 0:
             hi = peel(rng.kids[1])
             if hi.kind == "call" and hi.d["term"].get("name") == "gen_range" and len(hi.kids) > 1:
-                rr = peel(hi.kids[1])
-                if rr.kind == "agg" and len(rr.kids) == 2:
-                    lo_, hi_ = const_value(rr.kids[0]), const_value(rr.kids[1])
-                    incl = rr.d["agg"].get("adt") == "std::ops::RangeInclusive"
+                rb_ = common.range_bounds(hi.kids[1])
+                if rb_ is not None:
+                    incl = rb_[0]
+                    lo_, hi_ = const_value(rb_[1]), const_value(rb_[2])
                     if isinstance(lo_, int) and isinstance(hi_, int) and lo_ >= 1 and (lo_ < hi_ or (incl and lo_ <= hi_)):
                         okc = True
                         why = "loop over 0..gen_range(%d..%s%d): at least %d decoy(s)" % (lo_, "=" if incl else "", hi_, lo_)
